@@ -22,6 +22,7 @@ from collections import Counter
 VERIF = os.path.dirname(os.path.dirname(os.path.abspath(__file__)))
 REPO = os.environ.get("VERIF_REPO", "/repo")
 NWORKERS = int(os.environ.get("VERIF_WORKERS", "16"))
+OUT = os.environ.get("VERIF_OUT") or VERIF  # where evidence and new replay files are written
 
 
 def setup_imports():
@@ -396,14 +397,15 @@ def run_property(mod, tier, seed):
         out_lines.append(f"VIOLATION property={pid} replay={path}")
         out_lines.append(f"  bucket={d.bucket} detail={d.detail[:300]}")
         nviol += 1
+    out_replay_dir = os.path.join(OUT, "replays", pid)
     for v in merged.violations:
-        os.makedirs(replay_dir, exist_ok=True)
+        os.makedirs(out_replay_dir, exist_ok=True)
         body = {"property": pid, "bucket": v["bucket"], "detail": v["detail"], "kind": v["kind"],
                 "case": v["case"]}
         txt = jdump(body, indent=1, sort_keys=True)
         name = "new-" + "".join(c if c.isalnum() or c in "-." else "_" for c in v["bucket"])[:60]
         name += "-%08x.json" % (h64(txt) & 0xFFFFFFFF)
-        path = os.path.join(replay_dir, name)
+        path = os.path.join(out_replay_dir, name)
         with open(path, "w") as fh:
             fh.write(txt + "\n")
         out_lines.append(f"VIOLATION property={pid} replay={path}")
@@ -454,8 +456,8 @@ def run_property(mod, tier, seed):
         "wall_s": round(wall, 2),
         "violations": nviol,
     }
-    os.makedirs(os.path.join(VERIF, "evidence"), exist_ok=True)
-    with open(os.path.join(VERIF, "evidence", f"{pid}.json"), "w") as fh:
+    os.makedirs(os.path.join(OUT, "evidence"), exist_ok=True)
+    with open(os.path.join(OUT, "evidence", f"{pid}.json"), "w") as fh:
         fh.write(jdump(ev, indent=1) + "\n")
 
     for line in out_lines:
